@@ -193,7 +193,8 @@ def run_case(case):
                     src = None
                 else:
                     _, a2, probe2 = recorded.build(cfg, probe=probe2)
-                    src = {"bytes": b, "dict": pickle.loads(b), "path": path}[route]
+                    live = getattr(F.sampler, "last_checkpoint_state", None)  # the dictionary object of the interrupted run itself
+                    src = {"bytes": b, "dict": live if live is not None else pickle.loads(b), "path": path}[route]
                 # a private copy of the file per route so that routes do not interfere
                 RR = recorded.record(cfg, aspire=a2, probe=probe2, rng=rng2, with_callback=False, resume_from=src)
                 tag = f"{where} [crash at likelihood call {k}/{n_calls}, checkpoint of iteration {it}/{T}, route {route}]"
